@@ -24,7 +24,7 @@ ASSUMPTIONS = [
     "fit failures are not judged here (C08/C19); only successfully fitted objects are checked",
     "values_orders (list order + content dict) is read as plain data",
 ]
-BUDGET = {"quick": 1200, "thorough": 60000}
+BUDGET = {"quick": 1600, "thorough": 60000}
 DEADLINE_S = {"quick": 200, "thorough": 3300}
 
 CLASSES = CARVERS + PIPELINES + STEPS + ("BinaryCarver", "ContinuousCarver", "Discretizer", "ChainedDiscretizer")
